@@ -367,6 +367,8 @@ mod if_alloc {
             T: Clone + 'static,
         {
             fn clone(&self) -> Self {
+                #[cfg(futures_intrusive_verif)]
+                crate::verif::sched_point("oneshot_broadcast::handle_count_add");
                 let old_size =
                     self.inner.receivers.fetch_add(1, Ordering::Relaxed);
                 if old_size > (core::isize::MAX) as usize {
@@ -418,10 +420,14 @@ mod if_alloc {
             T: Clone,
         {
             fn drop(&mut self) {
+                #[cfg(futures_intrusive_verif)]
+                crate::verif::sched_point("oneshot_broadcast::handle_count_sub");
                 if self.inner.receivers.fetch_sub(1, Ordering::Release) != 1 {
                     return;
                 }
                 core::sync::atomic::fence(Ordering::Acquire);
+                #[cfg(futures_intrusive_verif)]
+                crate::verif::sched_point("oneshot_broadcast::last_handle_before_close");
                 // Close the channel, before last receiver gets destroyed
                 // TODO: We could potentially avoid this, if no sender is left
                 self.inner.channel.close();
